@@ -249,6 +249,7 @@ let run_case (line:str) : str =
     dg (fs_get ap s) ^ " " ^ dg (fs_get tp s)
   | "kill" -> "safe"
   | "metasched" -> "ok" (* metadata / TileJSON requests under replacement: judged by the oracle (the executable model has tile requests) *)
+  | "backend" -> "ok" (* sequential requests around replacements on the real local-directory / HTTP buckets: oracle only *)
   | "micro" -> "ok" (* C08_single_version_tile holds for every interleaving of loop messages; the run checks the implementation alone *)
   | "fill" ->
     let minz = tn ts in let _z = tn ts in let nb = ti ts in
